@@ -25,8 +25,16 @@ def field_view(text):
     return "login=" + c02.mask(fs[0]) + " " + " ".join("%d:%s:%s:%s" % (len(f) // 2, f[16:24], f[48:56], f[80:86]) for f in fs[1:])
 
 
-def count_bounds(c, verdict):
-    if c["kind"] == 12: return (0, 3)
+SEP_IDS = ("ELEC7022", "ZM079055", "ZM079065", "ZM079049")
+def count_bounds(c, verdict, outcome=""):
+    if c["kind"] == 12:
+        # a thermostat call that succeeded wrote exactly the frames of its kind: state query + main command when anything but the
+        # swing of a separate-swing remote was asked, plus the separate swing command (never for update-only)
+        irset, state, mode, target, fan, swing, update = c["args"]
+        sep = irset["IRSetID"] in SEP_IDS
+        main = state is not None or mode is not None or bool(target) or fan is not None or (swing is not None and not sep)
+        n = (2 if main else 0) + (1 if sep and swing is not None and not update else 0)
+        return (n, n) if outcome.startswith("ok") and all(len(r) > 0 for r in c["replies"]) else (0, 3)
     if verdict.startswith("frame:"): return (1, 1)
     if verdict == "raise": return (0, 1)      # that nothing is sent for a rejected argument is C02's claim, not this property's
     return (0, 1)
@@ -42,7 +50,7 @@ def judge(out, stream, cases, impl_texts):
         fs, _ = oc.split_text(t)
         ok_hex = all(len(f) % 2 == 0 for f in fs)
         if not oc.has_session(c) or not ok_hex: judged.append(False); lines.append("spec_login #0 - - #0"); continue
-        lo, hi = count_bounds(c, v)
+        lo, hi = count_bounds(c, v, oc.split_text(t)[1])
         judged.append(True)
         lines.append(lib.req("c03", 1 if c["kind"] in world.TYPE2_KINDS else 0, bytes.fromhex(c["id"]), bytes.fromhex(c["key"]),
                              c["now"], bytes.fromhex(c["replies"][0]), lo, hi, [bytes.fromhex(f) for f in fs]))
